@@ -64,6 +64,11 @@ func (w *Writer) reset() {
 	w.vec = w.vec[:0]
 }
 
+// Reset discards all staged data without writing it.
+func (w *Writer) Reset() {
+	w.reset()
+}
+
 // Flush flushes all data to writer.
 func (w *Writer) Flush() (n int64, err error) {
 	w.cutBuffer()
